@@ -576,6 +576,15 @@ def eval_closed(e, subs):
     return r
 
 
+def norm_msg(m):
+    """CNL_ASSERT messages start with __FILE__, whose spelling differs between compilers: keep the base name"""
+    m = m or ""
+    if " assert: " in m and ":" in m:
+        path_, rest = m.split(":", 1)
+        return path_.rsplit("/", 1)[-1] + ":" + rest
+    return m
+
+
 def observed_matches_path(kernel, env, path, observed, subs):
     """compare the real build's observed outcome with the symbolic path's outcome under substitution.
     -> True / False / None (indeterminate, e.g. depends on an undef value)"""
@@ -640,7 +649,7 @@ def observed_matches_path(kernel, env, path, observed, subs):
                         return False
         return res
     if path.kind == "TRAP":
-        return okind == "TRAP" and (path.payload or "") == (payload or "")
+        return okind == "TRAP" and norm_msg(path.payload) == norm_msg(payload)
     if path.kind == "THROW":
         return okind == "THROW" and (path.payload[0] or "").endswith(payload[0])
     return None  # UB / UNWIND: the real build may do anything
@@ -695,6 +704,8 @@ def check_kernel_mode(sb, kernel, view, key, mod, consts, mode, opts, res, known
     tier = opts["tier"]
     W = kernel.W
     exr = symex.Executor(mod, mode=mode, unwind=kernel.unwind or 70, max_paths=kernel.max_paths or 3000)
+    if kernel.prune_timeout_ms:
+        exr.solver.set("timeout", kernel.prune_timeout_ms)
     t_kernel = time.time()
     budget = opts.get("kernel_budget", 120)
     exr.deadline = t_kernel + budget * 0.5
